@@ -340,3 +340,36 @@ void h_SAVE_RESTORE(void) {
     VREACH("end");
 }
 #endif
+
+/* ---- C02: the user diagnostics WARNING / ERROR / FATAL / MESSAGE route to WrErrorString with the right class -------------
+ * (WrErrorString itself -- which counter moves, exit 3 after FATAL -- is under contract in h_asmerr.c) */
+#ifdef VERIF_USERMSG
+static int g_wes_calls, g_wes_warn, g_wes_fatal, g_con_calls, g_lst_calls; static int g_str_ok;
+void WrErrorString(char const* pMessage, char const* pAdd, Boolean Warning, Boolean Fatal, char const* pExtendError, const struct sLineComp* pLineComp) {
+    (void)pMessage; (void)pAdd; (void)pExtendError; (void)pLineComp; g_wes_calls++; g_wes_warn = Warning; g_wes_fatal = Fatal;
+}
+void EvalStrStringExpression(const struct sStrComp* pExpr, Boolean* pResult, char* pEvalResult) { (void)pExpr; *pResult = (Boolean)(g_str_ok != 0); pEvalResult[0] = 'm'; pEvalResult[1] = 0; }
+void WrConsoleLine(char const* pLine, Boolean NewLine) { (void)pLine; (void)NewLine; g_con_calls++; }
+void WrLstLine(char const* Line) { (void)Line; g_lst_calls++; }
+void h_user_diagnostics(void) {
+    static tStrComp a[2]; static char t[2]; int which; unsigned long ec;
+    t[0] = 'x'; t[1] = 0; a[1].str.p_str = t; a[1].str.capacity = 2; ArgStr = a;
+    VND(ArgCnt, int); VASSUME(ArgCnt >= 0 && ArgCnt <= 2); VND(g_str_ok, int); VND(which, int); VASSUME(which >= 0 && which <= 3);
+    VND(QuietMode, uchar); { static char ln[2]; ln[0] = 'l'; ln[1] = 0; LstName = ln; }
+    VND(g_err_cnt, ulong); VASSUME(g_err_cnt < 1000000); ec = g_err_cnt; g_wes_calls = g_con_calls = g_lst_calls = 0;
+    if (which == 0) CodeWARNING(0); else if (which == 1) CodeERROR(0); else if (which == 2) CodeFATAL(0); else CodeMESSAGE(0);
+    if (ArgCnt == 1 && g_str_ok) {
+        if (which <= 2) {
+            VPOST(g_wes_calls == 1 && (g_wes_warn != 0) == (which == 0) && (g_wes_fatal != 0) == (which == 2) && g_err_cnt == ec,
+                  "C02: WARNING reports a warning, ERROR an error, FATAL a fatal error -- each exactly one diagnostic");
+            VREACH("diag");
+        } else {
+            VPOST(g_wes_calls == 0 && g_err_cnt == ec && g_lst_calls == 1, "C02: MESSAGE prints its text and counts as neither error nor warning");
+            VREACH("message");
+        }
+    } else {
+        VPOST(g_wes_calls == 0 && g_err_cnt == ec + 1, "C02: a malformed WARNING/ERROR/FATAL/MESSAGE statement is itself reported (one error), never silently dropped");
+        VREACH("malformed");
+    }
+}
+#endif
